@@ -376,7 +376,11 @@ func replayFinding(p *PropCheck, f Finding) (bool, string, string) {
 		done := false
 		for i := 0; i < len(lines); i++ {
 			if strings.Contains(lines[i], ins.Anchor) {
-				lines = append(lines[:i+1], append([]string{ins.Text}, lines[i+1:]...)...)
+				at := i + 1
+				if ins.Before {
+					at = i
+				}
+				lines = append(lines[:at], append([]string{ins.Text}, lines[at:]...)...)
 				done = true
 				i++
 				if !ins.All {
